@@ -9,6 +9,7 @@ import Starcal.Jalali2
 import Starcal.Jal2820b
 import Starcal.HijriT3
 import Starcal.Gen.HijriTable
+import Starcal.FloatStdHijri
 /-! # C01 — calendar conversion is a bijection (round trips both ways)
 
 One theorem per configuration, each about the record the driver executes. -/
@@ -101,5 +102,22 @@ theorem C01_hijri_table_start_seam_witness :
   HijriT.start_seam
 
 example : calHijT.jdTo 2453442 = (1426, 2, 1) ∧ calHijT.toJd 1426 2 1 = 2453443 := by decide +kernel
+
+/-! ### hijri's float expressions
+
+`hijri.ToJd` and `JdTo` compute two month numbers in float64. The model above uses their exact integer values; that
+the FLOAT code computes those values is proved here under the standard model of floating-point arithmetic: for every
+rounding function with relative error ≤ 2^-53 that is exact on half-integers below 2^53 (FloatStd.lean). -/
+
+/-- the float code of hijri.JdTo and ToJd (arithmetic mode), every float operation rounded, IS the integer model -/
+theorem C01_hijri_float_code_is_model (rnd : Rat → Rat) (h : FloatStd.StdModel rnd) :
+    (∀ jd : Int, -100000000000 < jd → jd < 100000000000 → FloatStd.hJdToR rnd jd = Hijri.jdTo jd) ∧
+    (∀ d : Hijri.Date, -1000 < d.month → d.month < 1000 → FloatStd.hToJdR rnd d = Hijri.toJd d) :=
+  ⟨fun jd a b => FloatStd.hJdToR_eq rnd h jd a b, fun d a b => FloatStd.hToJdR_eq rnd h d a b⟩
+
+/-- hence C01 for the float code: every day number of the domain round-trips through it -/
+theorem C01_hijri_float_roundtrip (rnd : Rat → Rat) (h : FloatStd.StdModel rnd) (jd : Int)
+    (j0 : -40000000 ≤ jd) (j1 : jd ≤ 40000000) : FloatStd.hToJdR rnd (FloatStd.hJdToR rnd jd) = jd :=
+  FloatStd.hijri_float_roundtrip rnd h jd (by omega) (by omega)
 
 end Starcal.Props
